@@ -88,7 +88,9 @@ def _worker(spec):
     jobs = []
     for gi in range(len(gs)):
         for idx, d in enumerate(inputs[gi]):
-            for m in modes: jobs.append((gi, idx, m, d))
+            for m in modes:
+                if m == 10 and len(d) > 20000: continue      # the verbose trace of a 10^5..10^6 token input is gigabytes of text for the monitor process
+                jobs.append((gi, idx, m, d))
     remaining = list(jobs); restarts = 0
     allrecs = []
     env = {'ASAN_OPTIONS': 'abort_on_error=0:detect_leaks=1:halt_on_error=1:allocator_may_return_null=1:detect_stack_use_after_return=0', 'UBSAN_OPTIONS': 'print_stacktrace=1:halt_on_error=1'}
